@@ -791,6 +791,15 @@ func convertToExp(parser *syntax.Parser, split bool, val json.Marshaler,
 			if err := json.Unmarshal(val, &jv); err != nil {
 				return nil, err
 			}
+			// The value being split is a collection of the parameter's
+			// type, which is needed to tell structs from typed maps.
+			if v := bytes.TrimSpace(jv.Split); len(v) > 0 && v[0] == '{' &&
+				tname.MapDim == 0 {
+				tname.MapDim = tname.ArrayDim + 1
+				tname.ArrayDim = 0
+			} else {
+				tname.ArrayDim++
+			}
 			exp, err := convertToExp(parser, false,
 				jv.Split, tname, lookup)
 			if n, ok := exp.(*syntax.NullExp); ok {
